@@ -114,6 +114,30 @@ def opaque_value_cases(rng, n):
         yield Case("directed:multiple-inheritance", None, None, True, "Tup((MBoth(lk, rk), MLeft(lk), MRight(rk))).duplicate()",
                    oracle_fail=f3, sig="copy|directed|multiple-inheritance")
         del both, holder, hd, pa, pb
+        # two DIFFERENT classes with the same name and equal content in one tree (their base ids coincide): every copy is
+        # registered under an id used by no registered original, and no original loses its registry entry
+        def _mk():
+            @_dc.dataclass(frozen=True)
+            class CopyTwin(zoo.Expr):
+                v: int = 0
+            return CopyTwin
+        TA, TB = _mk(), _mk()
+        ta, tb = TA(v=5), TB(v=5)
+        tt = zoo.Tup((ta, tb, TA(v=5)))
+        td = tt.duplicate()
+        f4 = None
+        every = [tt, *tt.items, td, *td.items]
+        if any(x is y for x, y in zip(tt.items, td.items)) or td is tt:
+            f4 = "duplicate() returned an original object (same-named classes)"
+        elif any(_REG.get(x.id) is not x for x in every):
+            bad = next(x for x in every if _REG.get(x.id) is not x)
+            f4 = (f"after duplicate() a live, never detached {type(bad).__name__}(v=5) with id {bad.id} is not returned by the registry "
+                  f"(two classes named CopyTwin with equal content)")
+        elif len({x.id for x in every}) != len(every):
+            f4 = "ids of simultaneously registered nodes are not pairwise different (same-named classes)"
+        yield Case("directed:same-name-classes", None, None, True, "Tup((A(v=5), B(v=5), A(v=5))) with two classes named CopyTwin: duplicate()",
+                   oracle_fail=f4, sig="copy|directed|same-name-classes")
+        del tt, td, ta, tb, every, TA, TB
         yield Case("directed:falsy-children", None, None, True, "Tup((Un(Falsy), Opt(Falsy), Falsy, Tup(()))).duplicate()",
                    oracle_fail=f2, sig="copy|directed|falsy-children")
         del tree, dd, fz
